@@ -149,6 +149,11 @@ def check_candidate_window(rep: Report, rule: str) -> None:
         set_idx = [i for i, e in enumerate(p.events) if e[0] == "call" and "set_to_index" in show(e[1])[:4000]]
         seek_idx = [i for i, e in enumerate(p.events) if e[0] in ("local", "cond", "call") and any(len(s) > 1 and s[0] in ("virt", "call", "xcall") and "seek_non_exhausted_acquired_lot" in str(s[1]) for s in _tuples(e))]
         ok = bool(set_idx) and bool(seek_idx) and min(set_idx) < min(seek_idx)
+        if set_idx and not seek_idx:
+            # the seek has a single implementation and was interpreted into the path (no call event left): fall back on statement order in the source
+            seek_calls = [n for n in ast.walk(look.node) if isinstance(n, ast.Call) and isinstance(n.func, ast.Attribute) and n.func.attr == "seek_non_exhausted_acquired_lot"]
+            set_calls = [n for n in ast.walk(look.node) if isinstance(n, ast.Call) and isinstance(n.func, ast.Attribute) and n.func.attr == "set_to_index"]
+            ok = len(seek_calls) == 1 and len(set_calls) == 1 and (set_calls[0].lineno, set_calls[0].col_offset) < (seek_calls[0].lineno, seek_calls[0].col_offset) and not any(isinstance(a, (ast.If, ast.For, ast.While)) and set_calls[0] in list(ast.walk(a)) and seek_calls[0] not in list(ast.walk(a)) for a in ast.walk(look.node))
         arg_ok = False
         if set_idx:
             st = p.events[set_idx[0]][1]
